@@ -29,10 +29,11 @@ import (
 var reAuth = regexp.MustCompile(`invalid (renter|host) signature|signature N is invalid|failed to satisfy spend policy|claims incorrect (policy|unlock conditions)|missing signatures|is redundant|unsigned FoundationAddressUpdate`)
 
 type env struct {
-	b            *harness.B
-	c            *chaingen.Chain
-	per          int
-	directedDone bool
+	b              *harness.B
+	c              *chaingen.Chain
+	per            int
+	directedDone   bool
+	directedV1Done bool
 }
 
 func (e *env) judge(kind, class string, must bool, reason string, cs consensus.State, blk types.Block, kinds []string) {
@@ -199,6 +200,24 @@ func (e *env) v1Fields(cs consensus.State, orig types.Block, kinds []string) {
 			if !mutate.Apply(&blk.Transactions[i], p, variant) {
 				continue
 			}
+			if must && strings.HasPrefix(class, ".Signatures[].CoveredFields.") {
+				// an index list of a partial signature altered so that it selects the very same bytes (two equal miner
+				// fees, equal outputs): the signature hash is the same hash of the same content, nothing it
+				// authorizes has changed
+				var k int
+				fmt.Sscanf(p, ".Signatures[%d]", &k)
+				mt := &blk.Transactions[i]
+				if k < len(t.Signatures) && k < len(mt.Signatures) && !t.Signatures[k].CoveredFields.WholeTransaction {
+					same := false
+					func() {
+						defer func() { recover() }() // an out-of-range index is for the library to refuse
+						same = cs.PartialSigHash(*t, t.Signatures[k].CoveredFields) == cs.PartialSigHash(*mt, mt.Signatures[k].CoveredFields)
+					}()
+					if same {
+						must, reason = false, "the altered index list of a partial signature selects identical content"
+					}
+				}
+			}
 			e.judge("v1", class, must, reason, cs, blk, kinds)
 		}
 	}
@@ -236,6 +255,56 @@ func (e *env) v1Witness(cs consensus.State, orig types.Block, kinds []string) {
 			}
 			return false
 		})
+		// a partial (explicit covered fields) signature made for one output, copied onto another output of the same
+		// address that its owner never offered: input and an output to a stranger are appended beyond the covered
+		// indices, the signatures for the first parent are copied with only their ParentID changed
+		if len(t.SiacoinInputs) > 0 && len(t.StorageProofs) == 0 && len(t.SiafundInputs) == 0 && len(t.FileContractRevisions) == 0 {
+			allPartial := true
+			for _, sg := range t.Signatures {
+				allPartial = allPartial && !sg.CoveredFields.WholeTransaction
+			}
+			in0 := t.SiacoinInputs[0]
+			addr := in0.UnlockConditions.UnlockHash()
+			used := map[types.SiacoinOutputID]bool{}
+			for _, tx := range orig.Transactions {
+				for _, in := range tx.SiacoinInputs {
+					used[in.ParentID] = true
+				}
+			}
+			for _, tx := range orig.V2Transactions() {
+				for _, in := range tx.SiacoinInputs {
+					used[in.Parent.ID] = true
+				}
+			}
+			var other *types.SiacoinElement
+			if allPartial {
+				for _, id := range c.S.OrderedSC() {
+					el := c.S.SCEs[id]
+					if !used[id] && el.SiacoinOutput.Address == addr && el.MaturityHeight <= cs.Index.Height+1 && !el.SiacoinOutput.Value.IsZero() {
+						ec := el.Copy()
+						other = &ec
+						break
+					}
+				}
+			}
+			if other != nil {
+				variant("partial-signature-copied-onto-another-output-of-the-same-address", true, func(tt *types.Transaction) bool {
+					tt.SiacoinInputs = append(tt.SiacoinInputs, types.SiacoinInput{ParentID: other.ID, UnlockConditions: in0.UnlockConditions})
+					tt.SiacoinOutputs = append(tt.SiacoinOutputs, types.SiacoinOutput{Value: other.SiacoinOutput.Value, Address: types.StandardUnlockHash(foreignKey.PublicKey())})
+					n := len(tt.Signatures)
+					for k := 0; k < n; k++ {
+						if tt.Signatures[k].ParentID == types.Hash256(in0.ParentID) {
+							cp := tt.Signatures[k]
+							cp.Signature = append([]byte(nil), cp.Signature...)
+							cp.ParentID = types.Hash256(other.ID)
+							tt.Signatures = append(tt.Signatures, cp)
+						}
+					}
+					e.b.Count("partial_signature_replays_tried", 1)
+					return true
+				})
+			}
+		}
 		variant("signature-duplicated", true, func(tt *types.Transaction) bool {
 			tt.Signatures = append(tt.Signatures, tt.Signatures[0])
 			return true
@@ -761,6 +830,7 @@ func run(b *harness.B) {
 		for done := 0; done < blocks; {
 			done += c.Grow(1+rng.IntN(10), chaingen.Plan{MaxTxns: 5})
 			e.directed()
+			e.directedV1()
 			if c.Height() > 2 && rng.IntN(6) == 0 {
 				c.RevertTip()
 			}
